@@ -27,6 +27,8 @@ var c07SANItems = []refcfg.GeneralName{
 	{Type: "ip", Name: "127.0.0.1"}, {Type: "ip", Name: "255.0.128.7"},
 	{Type: "ip", Name: "0.0.0.0"}, // the address whose four octets are all zero
 	{Type: "dns", Name: "MiXed.Case.Example.ORG"},
+	// names whose text looks like another kind: the configured kind decides
+	{Type: "dns", Name: "192.168.0.1"}, {Type: "mail", Name: "host.example.org"},
 }
 
 var c07LongMembers = []string{"san-dns", "san-mail", "many-san", "aia-uri", "many-aia", "cps", "notice-text", "notice-org", "many-numbers", "many-policies", "many-eku", "long-oid", "aki-id"}
@@ -346,7 +348,7 @@ func init() {
 	register(&engine.Check{
 		ID:          "C07",
 		Level:       "exploration",
-		Rule:        "keyUsage: all 128 flag subsets x critical 3 (written order varied); subjectAlternativeName: all lists of length 0..4 over {mail,dns,ip} x 2 values plus the all-zero address and a mixed-case dns name (4681; thorough 0..5), and every octet value 0..255 in each of the four positions of an ip name written plain or with one or two leading zeros (3072); basicConstraints: ca {omitted,false,true} x pathLen {omitted, 0..255, 256, 65535, 2^31} (780); certificatePolicies: 30 policy shapes (plain, cps, every userNotice combination of organization x numbers x text, two qualifiers), singles and all pairs; authorityInformationAccess: lists 0..3 (thorough 0..4) over 7 URIs (two plain ones and five spellings a normalising library would rewrite); extendedKeyUsage: lists 0..3 (thorough 0..4) over 6 names + 3 OIDs (one of them below arc 2 with a second arc above 39); subjectAlternativeName lists up to 4 (thorough 5); authorityKeyIdentifier: hash (self-signed and under an issuer, each also with the entity's own key bits manipulated) and explicit ids of 1,20,32,127,128,768,769,1024 bytes x critical 3, every one-octet id (256) and a three-octet id for every pair of leading base64 characters of its !binary spelling (4096); subjectKeyIdentifier hash; ocspNoCheck; every string-, OID- and list-valued member at 25 lengths around the 127/128, 255/256 and 65535/65536 DER length-form boundaries. Each through a whole run; the emitted body must equal the reference DER encoding written from RFC 5280 / 6960 (DER is canonical, so byte equality = an independent decoder reading back exactly the configured value). non-trivial = distinct case",
+		Rule:        "keyUsage: all 128 flag subsets x critical 3 (written order varied); subjectAlternativeName: all lists of length 0..4 over {mail,dns,ip} x 2 values plus the all-zero address, a mixed-case dns name, a dns name that reads like an address and a mail name that reads like a host (11111; thorough 0..5), and every octet value 0..255 in each of the four positions of an ip name written plain or with one or two leading zeros (3072); basicConstraints: ca {omitted,false,true} x pathLen {omitted, 0..255, 256, 65535, 2^31} (780); certificatePolicies: 30 policy shapes (plain, cps, every userNotice combination of organization x numbers x text, two qualifiers), singles and all pairs; authorityInformationAccess: lists 0..3 (thorough 0..4) over 7 URIs (two plain ones and five spellings a normalising library would rewrite); extendedKeyUsage: lists 0..3 (thorough 0..4) over 6 names + 3 OIDs (one of them below arc 2 with a second arc above 39); subjectAlternativeName lists up to 4 (thorough 5); authorityKeyIdentifier: hash (self-signed and under an issuer, each also with the entity's own key bits manipulated) and explicit ids of 1,20,32,127,128,768,769,1024 bytes x critical 3, every one-octet id (256) and a three-octet id for every pair of leading base64 characters of its !binary spelling (4096); subjectKeyIdentifier hash; ocspNoCheck; every string-, OID- and list-valued member at 25 lengths around the 127/128, 255/256 and 65535/65536 DER length-form boundaries. Each through a whole run; the emitted body must equal the reference DER encoding written from RFC 5280 / 6960 (DER is canonical, so byte equality = an independent decoder reading back exactly the configured value). non-trivial = distinct case",
 		Bound:       map[string]string{"lists": "quick <=3, thorough SAN<=4 AIA<=5 EKU<=4", "pathLen": "0..255 + 3 large"},
 		Assumptions: []string{"a userNotice with neither organization, numbers nor text has no defined encoding and is excluded", "SAN ip octets outside 0..255 are outside the domain (C20 covers the error clause)"},
 		Budget:      budgets(quickBudget, thoroughBudget),
